@@ -426,3 +426,192 @@ def cached_param_rule(ctx, rid, cg=None, min_instances=20):
             r.fail(f.qualname, f"object-argument:{p}", f.file, f.lineno, f"{f.cls.name + '.' if f.cls else ''}{f.name}", f"memoised per argument `{p}` (identity) but `{norm_text(n)}` is read from it{' in ' + g.name if g is not f else ''}: after `{p}` changes state the memo returns the value computed from its old state")
         else:
             r.ok()
+
+
+# ---------------------------------------------------------------------------
+# state shared between instances / written through aliases
+# ---------------------------------------------------------------------------
+
+ARRAY_MAKERS = {"array", "asarray", "zeros", "ones", "empty", "full", "zeros_like", "ones_like", "empty_like", "arange", "linspace", "eye", "concatenate", "stack", "einsum", "copy", "asfearray", "broadcast"}
+
+
+def _is_private_state(e):
+    return isinstance(e, ast.Attribute) and isinstance(e.value, ast.Name) and e.value.id == "self" and e.attr.startswith("__") and not e.attr.endswith("__")
+
+
+def _state_view(e, aliases, root=_is_private_state):
+    from . import flow
+
+    if root(e):
+        return True
+    if isinstance(e, ast.Name):
+        return e.id in aliases
+    if isinstance(e, ast.Subscript):
+        return _state_view(e.value, aliases, root)
+    if isinstance(e, ast.Attribute):
+        return e.attr in flow.VIEW_METHODS and _state_view(e.value, aliases, root)
+    if isinstance(e, ast.Call):
+        d = dotted(e.func) or ""
+        if d in flow.VIEW_CALLS and e.args:
+            return _state_view(e.args[0], aliases, root)
+        if isinstance(e.func, ast.Attribute) and e.func.attr in flow.VIEW_METHODS:
+            return _state_view(e.func.value, aliases, root)
+        if isinstance(e.func, ast.Attribute) and e.func.attr in ("get", "setdefault") and root(e.func.value):
+            return True  # an entry of a state container
+    if isinstance(e, ast.IfExp):
+        return _state_view(e.body, aliases, root) or _state_view(e.orelse, aliases, root)
+    return False
+
+
+def _alias_names(fnode, root):
+    aliases, changed = set(), True
+    while changed:
+        changed = False
+        for n in ast.walk(fnode):
+            if isinstance(n, ast.Assign):
+                for t in n.targets:
+                    if isinstance(t, ast.Name) and t.id not in aliases and _state_view(n.value, aliases, root):
+                        aliases.add(t.id)
+                        changed = True
+                    elif isinstance(t, (ast.Tuple, ast.List)) and _state_view(n.value, aliases, root):
+                        for x in t.elts:
+                            if isinstance(x, ast.Name) and x.id not in aliases:
+                                aliases.add(x.id)
+                                changed = True
+    return aliases
+
+
+def _alias_sinks(fnode, aliases, root):
+    from . import flow
+
+    out = []
+    for n in ast.walk(fnode):
+        if isinstance(n, ast.AugAssign):
+            t = n.target
+            if isinstance(t, ast.Name) and t.id in aliases:
+                out.append((n, f"`{norm_text(n)[:60]}` (in place for arrays)"))
+            elif isinstance(t, ast.Subscript) and isinstance(t.value, ast.Name) and t.value.id in aliases:
+                out.append((n, f"`{norm_text(n)[:60]}`"))
+        elif isinstance(n, ast.Assign):
+            for t in n.targets:
+                if isinstance(t, ast.Subscript) and (isinstance(t.value, ast.Name) and t.value.id in aliases or (isinstance(t.value, ast.Subscript) and _state_view(t.value, aliases, lambda e: False))):
+                    out.append((n, f"`{norm_text(t)[:50]} = ...`"))
+        elif isinstance(n, ast.Call):
+            d = dotted(n.func) or ""
+            for k in n.keywords:
+                if k.arg == "out" and _state_view(k.value, aliases, root):
+                    out.append((n, f"out= of {d}"))
+            if d in flow.INPLACE_NP and n.args and _state_view(n.args[0], aliases, root):
+                out.append((n, f"{d}(...)"))
+            if isinstance(n.func, ast.Attribute) and n.func.attr in ("fill", "sort", "resize", "itemset", "partition", "put") and _state_view(n.func.value, aliases, root):
+                out.append((n, f".{n.func.attr}()"))
+    return out
+
+
+def state_alias_rule(ctx, rid, scope, min_instances=50):
+    """Stored state (private attributes) is replaced, never edited through a local name: `x = self.__a` followed by
+    `x += ...` / `x[i] = ...` writes the object's state in place from whatever function does it (a query such as
+    Get_normals_e_pg(displacementMatrix) would move the mesh).  Whole-entry stores `self.__d[key] = value` directly on the
+    attribute are the mutators' idiom and are not concerned."""
+    repo = ctx.repo
+    r = ctx.rule(rid, "no in-place write through a local alias of a private attribute (state is read through copying accessors or replaced as a whole)", min_instances=min_instances)
+    for f in repo.all_functions():
+        if f.cls is None or not scope(f):
+            continue
+        r.instance(fn=f.qualname)
+        aliases = _alias_names(f.node, _is_private_state)
+        sinks = _alias_sinks(f.node, aliases, _is_private_state) if aliases else []
+        if sinks:
+            n, d = sinks[0]
+            r.fail(f.qualname, "state-alias-write", f.file, n.lineno, f"{f.cls.name}.{f.name}", f"{d} writes through `{sorted(aliases)[0]}`, a local alias of the object's private state: the stored array is modified in place (no invalidation, cumulative over calls)")
+        else:
+            r.ok()
+
+
+def shared_container_rule(ctx, rid, scope, min_instances=50):
+    """A container stored on the CLASS is shared by every instance.  A method that fills it (memo keyed by shape / type
+    ...) and hands an array entry out -- bound to instance state, returned, or written into -- without a copy makes
+    separate objects (trial and test field, two quadrature objects) share one buffer."""
+    repo = ctx.repo
+    r = ctx.rule(rid, "arrays kept in a class-level container are not handed out to instances without a copy (no buffer shared between instances)", min_instances=min_instances)
+
+    def array_typed(f, expr, depth=2):
+        """evidence that the expression is an ndarray: built by a numpy / FeArray constructor, directly, through a local, or by a callee's return"""
+        todo, seen = [expr], set()
+        defs = {}
+        for n in ast.walk(f.node):
+            if isinstance(n, ast.Assign):
+                for t in n.targets:
+                    for x in ast.walk(t):
+                        if isinstance(x, ast.Name) and isinstance(x.ctx, ast.Store):
+                            defs.setdefault(x.id, []).append(n.value)
+        while todo:
+            e = todo.pop()
+            for x in ast.walk(e):
+                if isinstance(x, ast.Call):
+                    d = dotted(x.func) or ""
+                    if d.split(".")[-1] in ARRAY_MAKERS and (d.startswith("np.") or d.startswith("FeArray.")):
+                        return True
+                    if depth > 0:
+                        r0 = repo.resolve_name(f.module, d) if d else None
+                        cands = []
+                        if r0 is not None and hasattr(r0, "node") and isinstance(r0.node, ast.FunctionDef):
+                            cands = [r0]
+                        elif isinstance(x.func, ast.Attribute) and f.cls is not None:
+                            g = repo.lookup_method(f.cls, x.func.attr)
+                            if g is not None:
+                                cands = [g]
+                        for g in cands:
+                            for ret in ast.walk(g.node):
+                                if isinstance(ret, ast.Return) and ret.value is not None and array_typed(g, ret.value, depth - 1):
+                                    return True
+                if isinstance(x, ast.Name) and x.id in defs and x.id not in seen:
+                    seen.add(x.id)
+                    todo.extend(defs[x.id])
+        return False
+
+    for f in repo.all_functions():
+        ci = f.cls
+        if ci is None or not scope(f):
+            continue
+        r.instance(fn=f.qualname)
+        names = {ci.name, "cls", "type(self)", "self.__class__"}
+
+        def is_class_container(e, names=names):
+            return isinstance(e, ast.Attribute) and (dotted(e.value) or "") in names and not isinstance(e.ctx, ast.Store)
+
+        # does the method fill a class-level container with an array?
+        fills = []
+        for n in ast.walk(f.node):
+            if isinstance(n, ast.Assign):
+                for t in n.targets:
+                    if isinstance(t, ast.Subscript) and isinstance(t.value, ast.Attribute) and (dotted(t.value.value) or "") in names:
+                        if array_typed(f, n.value):
+                            fills.append((n, t.value.attr))
+            elif isinstance(n, ast.Call) and isinstance(n.func, ast.Attribute) and n.func.attr in ("setdefault", "append", "update") and isinstance(n.func.value, ast.Attribute) and (dotted(n.func.value.value) or "") in names:
+                if any(array_typed(f, a) for a in n.args):
+                    fills.append((n, n.func.value.attr))
+        if not fills:
+            r.ok()
+            continue
+        root = lambda e: isinstance(e, ast.Subscript) and is_class_container(e.value) or (isinstance(e, ast.Call) and isinstance(e.func, ast.Attribute) and e.func.attr in ("get", "setdefault") and is_class_container(e.func.value))
+        aliases = _alias_names(f.node, root)
+        # the freshly built value stored in the container is an alias of the entry too
+        for n, _ in fills:
+            if isinstance(n, ast.Assign) and isinstance(n.value, ast.Name):
+                aliases.add(n.value.id)
+        escapes = []
+        for n in ast.walk(f.node):
+            if isinstance(n, ast.Return) and n.value is not None and _state_view(n.value, aliases, root):
+                escapes.append((n, "returned"))
+            elif isinstance(n, ast.Assign):
+                for t in n.targets:
+                    tl = t.elts if isinstance(t, (ast.Tuple, ast.List)) else [t]
+                    if any(isinstance(x, ast.Attribute) and isinstance(x.value, ast.Name) and x.value.id == "self" for x in tl) and _state_view(n.value, aliases, root):
+                        escapes.append((n, "bound to instance state"))
+        escapes += [(n, "written in place: " + d) for n, d in _alias_sinks(f.node, aliases, root)]
+        if escapes:
+            n, how = escapes[0]
+            r.fail(f.qualname, f"class-level-buffer:{fills[0][1].lstrip('_')}", f.file, n.lineno, f"{ci.name}.{f.name}", f"an array kept in the class-level container `{ci.name}.{fills[0][1]}` is {how} without a copy: every instance (e.g. the trial field and its copy the test field; every Gauss object of one element type) shares that buffer, a write through one of them changes the others")
+        else:
+            r.ok()
